@@ -59,6 +59,8 @@ func genC08(tier string, seed int64) []Case {
 		}
 	}
 	add(c08Desc{Prefix: "midinit", Trigger: "explicit", Suffix: "crash", NExt: 1}) // known finding (see known_findings.jsonl)
+	add(c08Desc{Prefix: "healthy1", Trigger: "explicit", Suffix: "healthy2", Late: "afterRelease", LateAt: "received", NExt: 0})
+	add(c08Desc{Prefix: "timeout", Trigger: "auto", Suffix: "healthy2", Late: "afterDispatch", LateAt: "received", NExt: 0})
 	// late-notification orders: the held exit notification is always the LAST one of the old
 	// generation, so that holding the watcher delays nothing the reset itself waits for
 	for _, late := range []string{"beforeCtxClear", "beforeServerClear", "afterRelease", "afterDispatch"} {
@@ -349,6 +351,11 @@ func c08Instance(c *Ctx, d c08Desc, _ bool) *c08Result {
 					hk.Release(latePoint)
 				}
 			}()
+		} else if d.LateAt == "received" {
+			// the notification itself is late: the watcher has not even looked at the event when the
+			// teardown gives up waiting for it (2 s) and the reset completes
+			latePoint = "watchEvents.received"
+			hk.Hold(latePoint, nth)
 		} else {
 			hk.Hold(latePoint, nth)
 		}
@@ -677,6 +684,9 @@ func c08LateDance(c *Ctx, w *World, d c08Desc, inv *vh.Invocation, long time.Dur
 	latePoint := "watchEvents.exitRecorded"
 	if d.LateAt == "cancel" {
 		latePoint = "registrations.cancelFlows"
+	}
+	if d.LateAt == "received" {
+		latePoint = "watchEvents.received"
 	}
 	held := hk.WaitHeld(latePoint, 8*time.Second)
 	if !held {
